@@ -72,6 +72,26 @@ def leaves(t, conds=(), _known=None):
         yield conds, t
 
 
+def distinct_leaves(t):
+    """Distinct leaves of a Phi DAG (no path enumeration; shared sub-trees are visited once)."""
+    seen, out, stack = set(), [], [t]
+    while stack:
+        x = stack.pop()
+        if x is not FALL and T.tag(x) == 'phi':
+            if id(x) in seen:
+                continue
+            seen.add(id(x))
+            stack.append(x[3])
+            stack.append(x[2])
+        elif x not in out:
+            out.append(x)
+    return out
+
+
+def distinct_normal_leaves(t):
+    return [x for x in distinct_leaves(t) if T.tag(x) != 'raise']
+
+
 def normal_leaves(t):
     return [(c, x) for c, x in leaves(t) if T.tag(x) != 'raise']
 
